@@ -174,32 +174,53 @@ def c_post(ctx, it, cfg):
 
 @REG.contract('computeHomogenizationFunction/passes-stable-phase-names', [HP + ':computeHomogenizationFunction'])
 def c_compute(ctx, it, cfg):
+    """two nodes with DIFFERENT stable-phase sets: the post-processing of node i receives the names of the phases stable at node i and that node's arrays"""
     mod = it.load(HP)
+    DPm = it.load('kawin.diffusion.DiffusionParameters')
     therm = ThermStub(DB_PHASES, ['NI', 'AL', 'CR'])
-    stable = ['BCC_A2', 'SIGMA']
-    MD = it.load('kawin.diffusion.DiffusionParameters').env['MobilityData']
-    mob, f = mk_inputs(ctx, 2, 2)
-    M, F = arrs(mob, f)
-    mu = NP.array([real(ctx, 'mu0'), real(ctx, 'mu1')])
-    key = mod.env['_computeSingleMobility'].key
-    it.summaries[key] = lambda interp, fn, args, kwargs: MD(mobility=M, phases=NP.array(stable), phase_fractions=F, chemical_potentials=mu)
+    stable = [['SIGMA'], ['BCC_A2', 'SIGMA']]
+    MD = DPm.env['MobilityData']
+    nodes = []
+    for k, st in enumerate(stable):
+        mob, f = mk_inputs(ctx, len(st), 2, tag='n%d_' % k)
+        M, F = arrs(mob, f)
+        nodes.append((M, F, NP.array([real(ctx, 'n%d_mu0' % k), real(ctx, 'n%d_mu1' % k)])))
+    key = DPm.env['_computeSingleMobility'].key          # wherever it is called from (directly or through computeMobility)
+    cnt = [0]
+
+    def single(interp, fn, args, kwargs):
+        k = cnt[0]
+        cnt[0] += 1
+        M, F, mu = nodes[k]
+        return MD(mobility=M, phases=NP.array(stable[k]), phase_fractions=F, chemical_potentials=mu)
+    it.summaries[key] = single
     seen = []
 
     def post(th, m, pf, *a, **k):
-        seen.append((th, m, pf, a, k))
+        seen.append(('post', th, m, pf, a, k))
         return m, pf
 
     def avg(m, pf, **k):
         seen.append(('avg', m, pf, k))
-        return NP.array([real(ctx, 'avg0'), real(ctx, 'avg1')])
+        return NP.array([real(ctx, 'avg%d_0' % len(seen)), real(ctx, 'avg%d_1' % len(seen))])
     hp = it.get(HP, 'HomogenizationParameters')()
     hp.fields['postProcessFunction'] = post
     hp.fields['postProcessParameters'] = ['BCC_A2']
     hp.fields['homogenizationFunction'] = avg
-    x = NP.array([[real(ctx, 'x0'), real(ctx, 'x1')]])
-    T = NP.array([real(ctx, 'T')])
+    x = NP.array([[real(ctx, 'x%d%d' % (i, e)) for e in range(2)] for i in range(2)])
+    T = NP.array([real(ctx, 'T0'), real(ctx, 'T1')])
     out, pot = mod.env['computeHomogenizationFunction'](therm, x, T, hp, None)
-    ctx.prove('post-processing-called-once-with-the-user-arguments', len([s for s in seen if s[0] is therm]) == 1 and seen[0][3] == ('BCC_A2',) and seen[0][1] is M and seen[0][2] is F)
-    names = seen[0][4].get('phases') if seen and seen[0][0] is therm else None
-    ctx.prove('post-processing-receives-the-names-of-the-stable-phases', names is not None and [names.get(i) for i in range(2)] == stable if isinstance(names, ArrBase) else list(names or []) == stable)
-    ctx.prove('averaging-uses-the-post-processed-arrays-and-the-labyrinth-factor', seen[1][0] == 'avg' and seen[1][1] is M and seen[1][2] is F and 'labyrinth_factor' in seen[1][3])
+    posts = [s_ for s_ in seen if s_[0] == 'post']
+    avgs = [s_ for s_ in seen if s_[0] == 'avg']
+    ctx.prove('one-post-processing-and-one-average-per-node', len(posts) == 2 and len(avgs) == 2 and cnt[0] == 2)
+
+    def same(a, b):
+        return isinstance(a, ArrBase) and tuple(a.shape) == tuple(b.shape) and and_(*[eq(u, v_) for u, v_ in zip(a.tolist() if a.ndim == 1 else sum(a.tolist(), []), b.tolist() if b.ndim == 1 else sum(b.tolist(), []))]) is not False
+    for k in range(min(2, len(posts))):
+        M, F, mu = nodes[k]
+        ctx.prove('node%d/post-processing-gets-the-user-arguments-and-this-nodes-arrays' % k, posts[k][1] is therm and posts[k][4] == ('BCC_A2',) and same(posts[k][2], M) and same(posts[k][3], F))
+        names = posts[k][5].get('phases')
+        ctx.prove('node%d/post-processing-receives-the-names-of-the-phases-stable-at-this-node' % k,
+                  names is not None and ([names.get(i) for i in range(names.shape[0])] if isinstance(names, ArrBase) else list(names)) == stable[k])
+        ctx.prove('node%d/averaging-uses-the-post-processed-arrays-and-the-labyrinth-factor' % k, same(avgs[k][1], M) and same(avgs[k][2], F) and 'labyrinth_factor' in avgs[k][3])
+        ctx.prove('node%d/chemical-potentials-of-this-node' % k, and_(eq(pot.get(k, 0), mu.get(0)), eq(pot.get(k, 1), mu.get(1))))
